@@ -848,6 +848,30 @@ func runC12(w *World, r *Report) {
 					return
 				}
 				nw++
+				// the name is what tells a registered value apart from a container in the encoded form: not empty
+				nonEmpty := hasGuard(mu.Block(), func(g guard) bool {
+					op, x, y, ok := asCmp(g.cond)
+					if !ok {
+						return false
+					}
+					isKey := func(v ssa.Value) bool { p, ok := v.(*ssa.Parameter); return ok && p.Name() == "key" }
+					isEmpty := func(v ssa.Value) bool {
+						c, ok := v.(*ssa.Const)
+						return ok && c.Value != nil && c.Value.ExactString() == `""`
+					}
+					if !((isKey(x) && isEmpty(y)) || (isKey(y) && isEmpty(x))) {
+						// len(key) == 0
+						if c, ok := x.(*ssa.Call); ok && isBuiltin(c, "len") && isKey(c.Call.Args[0]) {
+							if k, ok := y.(*ssa.Const); ok && k.Value != nil && k.Value.ExactString() == "0" {
+								return (op == token.EQL && !g.pol) || (op == token.NEQ && g.pol) || (op == token.GTR && g.pol)
+							}
+						}
+						return false
+					}
+					return (op == token.EQL && !g.pol) || (op == token.NEQ && g.pol)
+				})
+				r.Check(nonEmpty, "C12.registry-bijective", "GenericRegister writes "+which+" under a non-empty name", mu.Pos(), "key != \"\" dominates the registry write",
+					"a type can be registered under the empty name: the decoder tells a registered value from a container by which of Type / StructType / MapKeyType is non-empty, so a value of that type is written as {MapValues: …} and read back as a nil slice — silently, also inside other values")
 				okm, okr := missGuard(mu.Block(), gm), missGuard(mu.Block(), grm)
 				r.Check(okm && okr, "C12.registry-bijective", "GenericRegister writes "+which, mu.Pos(), "on the miss arms of comma-ok lookups of both registries",
 					fmt.Sprintf("the registry entry is written without establishing that the name is unused (%v) and the type is unregistered (%v): two types can share a name, and a checkpoint written as one type is silently decoded as the other", okm, okr))
@@ -904,63 +928,7 @@ func runC12(w *World, r *Report) {
 	}
 
 	r.Rule("C12.registered-closure", "leaf types of the framework's persisted structs are registered, basic or interfaces", 3)
-	registered := map[string]bool{}
-	for _, fn := range w.RepoFuncs("internal/serialization", "compose") {
-		if !strings.HasPrefix(fn.Name(), "init") {
-			continue
-		}
-		instrs(fn, func(in ssa.Instruction) {
-			c, ok := in.(ssa.CallInstruction)
-			if !ok {
-				return
-			}
-			f, ok := c.Common().Value.(*ssa.Function)
-			if !ok || origin(f).Name() != "GenericRegister" {
-				return
-			}
-			for _, ta := range f.TypeArgs() {
-				registered[types.TypeString(ta, nil)] = true
-			}
-		})
-	}
-	if len(registered) < 25 {
-		undecidedf("C12.registered-closure: only %d registered types found (floor 25)", len(registered))
-	}
-	var leafOK func(t types.Type, d int) (bool, string)
-	leafOK = func(t types.Type, d int) (bool, string) {
-		if d > 8 {
-			return true, ""
-		}
-		switch x := t.(type) {
-		case *types.Pointer:
-			return leafOK(x.Elem(), d+1)
-		case *types.Slice:
-			return leafOK(x.Elem(), d+1)
-		case *types.Array:
-			return leafOK(x.Elem(), d+1)
-		case *types.Map:
-			if ok, why := leafOK(x.Key(), d+1); !ok {
-				return false, why
-			}
-			return leafOK(x.Elem(), d+1)
-		case *types.Interface:
-			if x.NumMethods() == 0 {
-				return registered["interface{}"] || registered["any"], "interface{} not registered"
-			}
-			return true, ""
-		case *types.Basic:
-			return registered[x.Name()], "basic type " + x.Name() + " not registered"
-		case *types.Named:
-			if registered[types.TypeString(x, nil)] {
-				return true, ""
-			}
-			if _, isIface := x.Underlying().(*types.Interface); isIface {
-				return registered[types.TypeString(x, nil)], "interface type " + x.Obj().Name() + " not registered"
-			}
-			return false, "type " + types.TypeString(x, nil) + " not registered"
-		}
-		return false, "unsupported kind " + t.String()
-	}
+	_, leafOK := registeredLeafOK(w, "C12.registered-closure")
 	persisted := []*types.Named{w.Named("compose", "checkpoint")}
 	persisted = append(persisted, channelImpls(w)...)
 	for _, n := range persisted {
@@ -980,21 +948,7 @@ func runC12(w *World, r *Report) {
 		sort.Strings(bad)
 		r.Check(len(bad) == 0 && nf > 0, "C12.registered-closure", "persisted type "+n.Obj().Name(), n.Obj().Pos(), fmt.Sprintf("%d exported fields, all leaves registered", nf), "a checkpoint can never be written through a byte store: "+strings.Join(bad, "; "))
 	}
-	// evidence: schema types registered for users
-	for _, name := range []string{"Message", "Document"} {
-		if n := w.TryNamed("schema", name); n != nil {
-			s := n.Underlying().(*types.Struct)
-			var bad []string
-			for i := 0; i < s.NumFields(); i++ {
-				if s.Field(i).Exported() {
-					if ok, why := leafOK(s.Field(i).Type(), 0); !ok {
-						bad = append(bad, s.Field(i).Name()+": "+why)
-					}
-				}
-			}
-			r.Info("C12.registered-closure", "schema."+name, n.Obj().Pos(), "leaves not registered (Marshal reports 'unknown type' — loud, allowed by the property): "+strings.Join(bad, "; "))
-		}
-	}
+	registeredSetClosed(w, r, "C12.registered-closure", leafOK, persisted)
 	_ = token.ADD
 }
 
@@ -1087,4 +1041,124 @@ func staticCalleesOf(w *World, f *ssa.Function) []*ssa.Function {
 		}
 	})
 	return out
+}
+
+// registeredSetClosed: every named struct type of the module that the module registers itself ("all built-in eino types
+// are already registered") has only registered leaves — otherwise whether a message can be checkpointed depends on its
+// content.
+func registeredSetClosed(w *World, r *Report, rule string, leafOK func(t types.Type, d int) (bool, string), persisted []*types.Named) {
+	// the registered set is closed: every named type the module registers itself ("all built-in eino types are already
+	// registered") has only registered leaves — otherwise whether a message can be checkpointed depends on its content
+	{
+		var regNamed []*types.Named
+		for _, fn := range w.RepoFuncs("internal/serialization", "compose") {
+			if !strings.HasPrefix(fn.Name(), "init") {
+				continue
+			}
+			instrs(fn, func(in ssa.Instruction) {
+				c, ok := in.(ssa.CallInstruction)
+				if !ok {
+					return
+				}
+				f, ok := c.Common().Value.(*ssa.Function)
+				if !ok || origin(f).Name() != "GenericRegister" {
+					return
+				}
+				for _, ta := range f.TypeArgs() {
+					if n, ok := ta.(*types.Named); ok {
+						if _, isStruct := n.Underlying().(*types.Struct); isStruct && n.Obj().Pkg() != nil && strings.HasPrefix(n.Obj().Pkg().Path(), modPath) {
+							regNamed = append(regNamed, n)
+						}
+					}
+				}
+			})
+		}
+		sort.Slice(regNamed, func(i, j int) bool { return regNamed[i].String() < regNamed[j].String() })
+		persistedSet := map[*types.Named]bool{}
+		for _, n := range persisted {
+			persistedSet[n] = true
+		}
+		for _, n := range regNamed {
+			if persistedSet[n] {
+				continue
+			}
+			s := n.Underlying().(*types.Struct)
+			var bad []string
+			for i := 0; i < s.NumFields(); i++ {
+				if s.Field(i).Exported() {
+					if ok, why := leafOK(s.Field(i).Type(), 0); !ok {
+						bad = append(bad, s.Field(i).Name()+": "+why)
+					}
+				}
+			}
+			sort.Strings(bad)
+			r.Check(len(bad) == 0, rule, "registered type "+types.TypeString(n, func(p *types.Package) string { return p.Name() }), n.Obj().Pos(), "all leaves of its exported fields are registered", "a built-in type is registered but the types of some of its fields are not — a value of it serialises or fails with 'unknown type' depending on which optional parts are filled (a multi-modal message, a message with log-probs pending at an interrupt makes the checkpoint write fail: the caller gets a plain error, nothing is stored, the run cannot be resumed): "+strings.Join(bad, "; "))
+		}
+		if len(regNamed) < 8 {
+			undecidedf(rule+": only %d registered module struct types found", len(regNamed))
+		}
+	}
+}
+
+// registeredLeafOK: the set of types registered with the serializer by the module's init functions, and the predicate
+// "every leaf of this type is registered".
+func registeredLeafOK(w *World, rule string) (map[string]bool, func(t types.Type, d int) (bool, string)) {
+	registered := map[string]bool{}
+	for _, fn := range w.RepoFuncs("internal/serialization", "compose") {
+		if !strings.HasPrefix(fn.Name(), "init") {
+			continue
+		}
+		instrs(fn, func(in ssa.Instruction) {
+			c, ok := in.(ssa.CallInstruction)
+			if !ok {
+				return
+			}
+			f, ok := c.Common().Value.(*ssa.Function)
+			if !ok || origin(f).Name() != "GenericRegister" {
+				return
+			}
+			for _, ta := range f.TypeArgs() {
+				registered[types.TypeString(ta, nil)] = true
+			}
+		})
+	}
+	if len(registered) < 25 {
+		undecidedf(rule+": only %d registered types found (floor 25)", len(registered))
+	}
+	var leafOK func(t types.Type, d int) (bool, string)
+	leafOK = func(t types.Type, d int) (bool, string) {
+		if d > 8 {
+			return true, ""
+		}
+		switch x := t.(type) {
+		case *types.Pointer:
+			return leafOK(x.Elem(), d+1)
+		case *types.Slice:
+			return leafOK(x.Elem(), d+1)
+		case *types.Array:
+			return leafOK(x.Elem(), d+1)
+		case *types.Map:
+			if ok, why := leafOK(x.Key(), d+1); !ok {
+				return false, why
+			}
+			return leafOK(x.Elem(), d+1)
+		case *types.Interface:
+			if x.NumMethods() == 0 {
+				return registered["interface{}"] || registered["any"], "interface{} not registered"
+			}
+			return true, ""
+		case *types.Basic:
+			return registered[x.Name()], "basic type " + x.Name() + " not registered"
+		case *types.Named:
+			if registered[types.TypeString(x, nil)] {
+				return true, ""
+			}
+			if _, isIface := x.Underlying().(*types.Interface); isIface {
+				return registered[types.TypeString(x, nil)], "interface type " + x.Obj().Name() + " not registered"
+			}
+			return false, "type " + types.TypeString(x, nil) + " not registered"
+		}
+		return false, "unsupported kind " + t.String()
+	}
+	return registered, leafOK
 }
